@@ -7,7 +7,7 @@
    WMIN[0]/3 < W[0], WUDICH >= 0, and in the crop branch 0 <= LUMDAY (no condition on LUKRIT: after the
    repair F27 the branch that divides by it is only taken when LUKRIT > 0). *)
 From Coq Require Import ZArith Reals List Bool PrimFloat SpecFloat.
-From Hermes Require Import Num RUtil WaterModel WaterProofs EvatraModel EvatraProofs.
+From Hermes Require Import Num RUtil WaterModel WaterProofs EvatraModel EvatraProofs Et0Model Et0Proofs.
 Local Open Scope R_scope.
 
 (* the potential ET handed on by the cap/floor step (water.go:292-297, 463-468) lies in [0, 0.65] under a
@@ -103,6 +103,105 @@ Example C08_nonvacuous :
                ei_grw := 20; ei_lukrit := 8/100; ei_lumday := 0; ei_lured := 1; ei_etrel := 1; ei_trrel := 1 |}.
 Proof. exact C08_example_wf. Qed.
 
+(* ------------------------------------------------------------------------------------------------ *)
+(* The potential evapotranspiration BEFORE the cap (Et0Model: the five ETpot methods of water.go:132-468,
+   stomat and solar.go, with math.Exp/Log/Sin/Cos/Tan/Asin/Acos/Pow as an explicit record O of functions). *)
+
+(* whatever the formulas and the transcendental functions return, Evatra continues with a value in
+   [0, 0.65] (crop) / [0, 0.6] (bare soil) *)
+Theorem C08_pet_in_range : forall (O : Orc R) (K : Consts R) (x : et0_in (T:=R)),
+  0 <= @pot_cap R RNum (ti_crop x) (to_precap (@et0_struct R RNum O K x)) <= cap_of (ti_crop x).
+Proof. exact pet_in_range. Qed.
+
+(* method by method, in the documented physical domain the value is non-negative already before the floor *)
+Theorem C08_et0_haude_nonneg : forall x : et0_in (T:=R),
+  0 <= ti_verd x -> Forall (fun v => 0 <= v) (ti_fkf x) -> Forall (fun v => 0 <= v) (ti_fku x) ->
+  0 <= to_precap (@et0_haude R RNum x).
+Proof. exact et0_haude_nonneg. Qed.
+
+Theorem C08_et0_file_nonneg : forall x : et0_in (T:=R),
+  0 <= ti_etnull x -> 0 <= kc_of x -> 0 <= to_precap (@et0_file R RNum x).
+Proof. exact et0_file_nonneg. Qed.
+
+Theorem C08_et0_turc_rad_nonneg : forall (O : Orc R) (K : Consts R) (x : et0_in (T:=R)),
+  0 < ti_rad x -> 0 <= ti_kcoa x -> -22 <= ti_temp x -> 0 <= kc_of x ->
+  0 <= to_precap (@et0_turc R RNum O K x) /\ 0 < 150 * (ti_temp x + 123).
+Proof. exact et0_turc_rad_nonneg. Qed.
+
+(* without measured radiation: any functions, given EXT >= 0 ... *)
+Theorem C08_et0_turc_sunshine_nonneg : forall (O : Orc R) (K : Consts R) (x : et0_in (T:=R)),
+  ti_rad x <= 0 -> 0 <= d_EXT (@day_length R RNum O K (IZR (ti_tag x)) (ti_lat x)) -> 0 <= ti_sund x ->
+  0 <= ti_kcoa x -> -22 <= ti_temp x -> 0 <= kc_of x ->
+  0 <= to_precap (@et0_turc R RNum O K x) /\
+  0 < (if ti_crop x then 150 * (ti_temp x - 1 + 123) else 150 * (ti_temp x + 123)).
+Proof. exact et0_turc_sunshine_nonneg. Qed.
+
+(* ... and EXT >= 0 holds for the true sin/cos/tan/acos and the exact constants at every latitude strictly
+   between the poles, on every day of the year *)
+Theorem C08_ext_nonneg : forall tag lat : R, -90 < lat < 90 ->
+  0 <= d_EXT (@day_length R RNum real_orc realK tag lat).
+Proof. exact ext_nonneg_real. Qed.
+
+Theorem C08_et0_turc_sunshine_nonneg_real : forall x : et0_in (T:=R),
+  ti_rad x <= 0 -> -90 < ti_lat x < 90 -> 0 <= ti_sund x -> 0 <= ti_kcoa x -> -22 <= ti_temp x ->
+  0 <= kc_of x -> 0 <= to_precap (@et0_turc R RNum real_orc realK x).
+Proof. exact et0_turc_sunshine_nonneg_real. Qed.
+
+(* Priestley-Taylor and Penman-Monteith floor their reference ET themselves: non-negative for ANY functions *)
+Theorem C08_et0_pt_nonneg : forall (O : Orc R) (K : Consts R) (x : et0_in (T:=R)),
+  0 <= kc_of x -> 0 <= to_et0 (@et0_pt R RNum O K x) /\ 0 <= to_precap (@et0_pt R RNum O K x).
+Proof. exact et0_pt_nonneg. Qed.
+
+Theorem C08_et0_pm_nonneg : forall (O : Orc R) (K : Consts R) (x : et0_in (T:=R)),
+  0 <= kc_of x -> 0 <= to_et0 (@et0_pm R RNum O K x) /\ 0 <= to_precap (@et0_pm R RNum O K x).
+Proof. exact et0_pm_nonneg. Qed.
+
+(* all methods at once; inside the domain and below the cap the cap/floor step is the identity *)
+Theorem C08_et0_all_methods_nonneg : forall (O : Orc R) (K : Consts R) (x : et0_in (T:=R)),
+  et0_domain O K x -> 0 <= to_precap (@et0_struct R RNum O K x).
+Proof. exact et0_struct_nonneg. Qed.
+
+Theorem C08_pet_unchanged_below_cap : forall (O : Orc R) (K : Consts R) (x : et0_in (T:=R)),
+  et0_domain O K x -> to_precap (@et0_struct R RNum O K x) <= cap_of (ti_crop x) ->
+  @pot_cap R RNum (ti_crop x) (to_precap (@et0_struct R RNum O K x)) = to_precap (@et0_struct R RNum O K x).
+Proof. exact pet_unchanged_below_cap. Qed.
+
+(* the domain bound -22 degC of Turc-Wendling is needed: at -30 degC the formula is negative (this was F8);
+   the floor of the cap/floor step makes the day's potential ET 0 *)
+Theorem C08_pot_nonneg_refuted : forall (O : Orc R) (K : Consts R),
+  to_precap (@et0_struct R RNum O K turc_witness) < 0 /\
+  @pot_cap R RNum true (to_precap (@et0_struct R RNum O K turc_witness)) = 0.
+Proof. exact pot_nonneg_refuted. Qed.
+
+(* definedness of the combination formulas: their divisors are positive (functions with exp > 0,
+   pow(v,2) > 0 for v <> 0, pow(v,w) > 0 for v > 0 - facts the true functions have) *)
+Theorem C08_real_functions_ok : orc_ok real_orc.
+Proof. exact real_orc_ok. Qed.
+
+Theorem C08_pt_divisor_pos : forall (O : Orc R) (x : et0_in (T:=R)),
+  orc_ok O -> ti_temp x + 2373 / 10 <> 0 -> ti_alti x < 293 / (65 / 10000) -> 0 < @pt_den R RNum O x.
+Proof. exact pt_den_pos. Qed.
+
+Theorem C08_pm_divisor_pos : forall deltsat psych rsurf wind : R,
+  0 < deltsat -> 0 < psych -> 0 <= rsurf -> 0 <= wind -> 0 < @pm_den R RNum deltsat psych rsurf wind.
+Proof. exact pm_den_pos. Qed.
+
+Theorem C08_pm_terms_pos : forall (O : Orc R) (t alti : R),
+  orc_ok O -> t + 2373 / 10 <> 0 -> alti < 293 / (65 / 10000) ->
+  0 < @deltsat_of R RNum O t /\ 0 < 665 / 1000000 * @atmpress_of R RNum O alti.
+Proof. exact pm_terms_pos. Qed.
+
+Theorem C08_wind_floor : forall (O : Orc R) (x : et0_in (T:=R)), 5 / 10 <= @wind2m R RNum O x.
+Proof. exact wind2m_floor. Qed.
+
+Example C08_et0_domain_nonvacuous : forall (O : Orc R) (K : Consts R),
+  et0_domain O K
+    {| ti_crop := true; ti_meth := 3; ti_tag := 180; ti_lat := 52; ti_alti := 50; ti_kcoa := 1; ti_fkc := 11 / 10; ti_fkb := 4 / 10;
+       ti_fkf := nil; ti_fku := nil; ti_verd := 8; ti_temp := 18; ti_tmin := 12; ti_tmax := 24; ti_rad := 10; ti_sund := 9;
+       ti_rh := 70; ti_wind := 3; ti_windhi := 2; ti_etnull := 4; ti_ctrans := true; ti_co2meth := 2; ti_co2konz := 400;
+       ti_mintmp := 4; ti_alph := 40; ti_satbeta := 25 / 10; ti_radsum := 0; ti_rstom := 100; ti_et0 := 0; ti_satdef := 0 |}.
+Proof. exact et0_domain_example. Qed.
+
 Print Assumptions C08_pot_cap.
 Print Assumptions C08_pot_cap_binary64.
 Print Assumptions C08_proz_range.
@@ -114,3 +213,20 @@ Print Assumptions C08_redistribute_in_evatra.
 Print Assumptions C08_uptake_zone.
 Print Assumptions C08_uptake_avail.
 Print Assumptions C08_ratios.
+Print Assumptions C08_pet_in_range.
+Print Assumptions C08_et0_haude_nonneg.
+Print Assumptions C08_et0_file_nonneg.
+Print Assumptions C08_et0_turc_rad_nonneg.
+Print Assumptions C08_et0_turc_sunshine_nonneg.
+Print Assumptions C08_ext_nonneg.
+Print Assumptions C08_et0_turc_sunshine_nonneg_real.
+Print Assumptions C08_et0_pt_nonneg.
+Print Assumptions C08_et0_pm_nonneg.
+Print Assumptions C08_et0_all_methods_nonneg.
+Print Assumptions C08_pet_unchanged_below_cap.
+Print Assumptions C08_pot_nonneg_refuted.
+Print Assumptions C08_real_functions_ok.
+Print Assumptions C08_pt_divisor_pos.
+Print Assumptions C08_pm_divisor_pos.
+Print Assumptions C08_pm_terms_pos.
+Print Assumptions C08_wind_floor.
